@@ -8,7 +8,13 @@
 // option. This file may not be copied, modified, or distributed
 // except according to those terms.
 
-use std::{cell::RefCell, collections::hash_map, env, fs, hash::Hasher, time::SystemTime};
+use std::{
+    cell::RefCell,
+    collections::hash_map,
+    env, fs,
+    hash::Hasher,
+    time::{Instant, SystemTime},
+};
 
 use super::tz_info::TimeZone;
 use super::{FixedOffset, NaiveDateTime};
@@ -68,7 +74,9 @@ impl Source {
 struct Cache {
     zone: TimeZone,
     source: Source,
-    last_checked: SystemTime,
+    // measured with the monotonic clock: the wall clock can be set back, which would stretch the
+    // reuse window below by the size of the step
+    last_checked: Instant,
 }
 
 #[cfg(target_os = "aix")]
@@ -92,7 +100,7 @@ impl Default for Cache {
         let env_tz = env::var("TZ").ok();
         let env_ref = env_tz.as_deref();
         Cache {
-            last_checked: SystemTime::now(),
+            last_checked: Instant::now(),
             source: Source::new(env_ref),
             zone: current_zone(env_ref),
         }
@@ -105,16 +113,16 @@ fn current_zone(var: Option<&str>) -> TimeZone {
 
 impl Cache {
     fn offset(&mut self, d: NaiveDateTime, local: bool) -> MappedLocalTime<FixedOffset> {
-        let now = SystemTime::now();
+        let now = Instant::now();
 
-        match now.duration_since(self.last_checked) {
+        match now.checked_duration_since(self.last_checked) {
             // If the cache has been around for less than a second then we reuse it
             // unconditionally. This is a reasonable tradeoff because the timezone
             // generally won't be changing _that_ often, but if the time zone does
             // change, it will reflect sufficiently quickly from an application
             // user's perspective.
-            Ok(d) if d.as_secs() < 1 => (),
-            Ok(_) | Err(_) => {
+            Some(d) if d.as_secs() < 1 => (),
+            Some(_) | None => {
                 let env_tz = env::var("TZ").ok();
                 let env_ref = env_tz.as_deref();
                 let new_source = Source::new(env_ref);
